@@ -116,7 +116,8 @@ def run(facts, R):
             rg = facts.body(module + "::PendingRequestGuard::register")
             rs = Sym(rg)
             ins = [(i, t) for i, t in rg.calls() if t["callee"]["name"] == "insert" and "HashMap" in t["callee"]["path"]]
-            R.check(len(ins) == 1, "id-source", rg.path, "one insert", "register has %d inserts" % len(ins), rg.span)
+            vac = [(i, t) for i, t in rg.calls() if t["callee"]["name"] == "insert" and "VacantEntry" in t["callee"]["path"]]
+            R.check(len(ins) + len(vac) == 1, "id-source", rg.path, "one insert", "register has %d inserts" % (len(ins) + len(vac)), rg.span)
             for i, t in ins:
                 fs = facts_at(rg, rs, facts, i)
                 dup = any(is_call(f["expr"], "contains_key") and f["val"] is False and f["expr"][2][1] == rs.op(t["args"][1]) for f in fs)
@@ -124,6 +125,16 @@ def run(facts, R):
                 R.check(dup and keyarg[0] == "arg" and keyarg[1] == 2, "id-source", rg.path, "duplicate key refused",
                         "register inserts %s without first refusing an id that is already in flight; guards: %s" % (render(keyarg), texts(fs)), t.get("span"),
                         "insert(request_id) only if !contains_key(request_id)")
+            for i, t in vac:
+                # entry API: the insert goes through the Vacant variant of pending.entry(request_id); Occupied is the refusal
+                slot = rs.op(t["args"][0])
+                ent = [x for x in walk(slot) if is_call(x, "entry")]
+                keyarg = ent[0][2][1] if ent and len(ent[0][2]) > 1 else None
+                fs = facts_at(rg, rs, facts, i)
+                vacant = any(is_call(f["expr"], "entry") and str(f["val"]) == "Vacant" for f in fs)
+                R.check(vacant and keyarg is not None and keyarg[0] == "arg" and keyarg[1] == 2, "id-source", rg.path, "duplicate key refused",
+                        "register inserts through %s without being on the Vacant edge of entry(request_id); guards: %s" % (render(slot)[:80], texts(fs)), t.get("span"),
+                        "entry(request_id): Vacant -> insert, Occupied -> refuse")
 
         # ---------------- deliver-by-key --------------------------------------------------------------
         lb = facts.body(loopfn)
